@@ -4,9 +4,11 @@
 const char* PROPERTY = "C14";
 const int LMAX = 64;
 const char* RULE =
-    "enum: all 20 ordered pairs d1!=d2 in {2..6} x 29 binary entry points (+ and - in every value-category overload, scalar product, SUTrace with and without guarantee flags that do not include EqualSizes, "
+    "enum: all 20 ordered pairs d1!=d2 in {2..6} x 51 binary entry points (+ and - in every value-category overload, scalar product, SUTrace with and without guarantee flags that do not include EqualSizes, "
     "commutator, anticommutator, the four ElementwiseOperation and four ElementwiseProduct overloads, += -= of a vector and of a proxy, "
-    "Evolve(op,t) in both roles, Rotate(matrix)) x 3x3 operand storage kinds (self-owned, aligned factory, external exact-size heap buffer so "
+    "Evolve(op,t) in both roles, Rotate(matrix); the members of unevaluated expressions: Evolve by a vector and by an expression, + - and scalar product with vectors and "
+    "expressions; Rotate / UTransform / UDaggerTransform by square matrices of the other dimension and by d1 x d2 and d2 x d1 ones, UTransform(vector,scale), "
+    "WeightedRotation with a weight or a matrix of the other dimension) x 3x3 operand storage kinds (self-owned, aligned factory, external exact-size heap buffer so "
     "ASan sees a one-element over-read); every constructor/factory with the whole unsupported window (dimension 1,7,8; list lengths 1, every "
     "non-square <=64, 49, 64; r x c matrices up to 8x8 with r!=c and square 1,7,8; factory indices d..d*d+2) [exhaustive over these axes]; "
     "pbt re-samples the same space with random operand values. Oracle: a std::exception is raised; both operands bit-unchanged with the same "
@@ -17,8 +19,13 @@ void harness_init() { quiet_gsl(); }
 struct EOp { double operator()(double a, double b) const { return a * b + 1.0; } };
 static const char* EP[] = {"a+b", "a+move(b)", "move(a)+b", "move(a)+move(b)", "a-b", "move(a)-b", "a*b", "SUTrace", "iCommutator", "ACommutator",
                            "EwOp(a,b)", "EwOp(move(a),b)", "EwOp(a,move(b))", "EwOp(move(a),move(b))", "EwProd(a,b)", "EwProd(move(a),b)", "EwProd(a,move(b))", "EwProd(move(a),move(b))",
-                           "a+=b", "a-=b", "a+=proxy(b)", "a-=proxy(b)", "a.Evolve(b,t)", "b.Evolve(a,t)", "a.Rotate(matrix_d2)", "a+=b*2 (mult proxy)", "a-=(-b) (neg proxy)", "SUTrace<NoAlias>", "SUTrace<AlignedStorage>"};
-static const int NEP = 29;
+                           "a+=b", "a-=b", "a+=proxy(b)", "a-=proxy(b)", "a.Evolve(b,t)", "b.Evolve(a,t)", "a.Rotate(matrix_d2)", "a+=b*2 (mult proxy)", "a-=(-b) (neg proxy)", "SUTrace<NoAlias>", "SUTrace<AlignedStorage>",
+                           // entry points on unevaluated expressions, and the matrix-taking ones with every wrong shape
+                           "(a+a2).Evolve(b,t)", "(a*2).Evolve(b,t)", "iCommutator(a,a2).Evolve(b,t)", "(a+a2).Evolve(b*2,t)", "a.Evolve(b*2,t)", "(a+a2)+b", "(a+a2)-b",
+                           "(a+a2)+(b+b2)", "(a+a2)-(b+b2)", "(a+a2)*(b+b2)", "a*(b+b2)", "a+(b+b2)", "a.Rotate(d1 x d2)", "a.Rotate(d2 x d1)",
+                           "a.UTransform(matrix_d2)", "a.UDaggerTransform(matrix_d2)", "a.UTransform(d1 x d2)", "a.UDaggerTransform(d2 x d1)", "a.UTransform(b,i)",
+                           "a.WeightedRotation(V,b,W)", "a.WeightedRotation(V_d2,a2,W)", "a.WeightedRotation(V,a2,W_d2)"};
+static const int NEP = 51;
 
 struct Operand {
   double* ext; SU_vector v; std::vector<double> c; const double* addr; int d; int kind;
@@ -48,6 +55,8 @@ struct Operand {
 
 static bool call_binary(int ep, SU_vector& a, SU_vector& b, int d2) {
   // returns true if an exception derived from std::exception was raised
+  int d1 = (int)a.Dim();
+  SU_vector a2 = a, b2 = b;  // second operands of the same dimension for the expression forms
   try {
     switch (ep) {
       case 0: { SU_vector r(a + b); break; }
@@ -78,6 +87,28 @@ static bool call_binary(int ep, SU_vector& a, SU_vector& b, int d2) {
       case 25: a += b * 2.0; break;
       case 26: a -= (-b); break;
       case 27: { volatile double r = squids::SUTrace<squids::detail::NoAlias>(a, b); (void)r; break; }
+      case 29: { SU_vector r((a + a2).Evolve(b, 0.75)); break; }
+      case 30: { SU_vector r((a * 2.0).Evolve(b, 0.75)); break; }
+      case 31: { SU_vector r(squids::iCommutator(a, a2).Evolve(b, 0.75)); break; }
+      case 32: { SU_vector r((a + a2).Evolve(b * 2.0, 0.75)); break; }
+      case 33: { SU_vector r(a.Evolve(b * 2.0, 0.75)); break; }
+      case 34: { SU_vector r((a + a2) + b); break; }
+      case 35: { SU_vector r((a + a2) - b); break; }
+      case 36: { SU_vector r((a + a2) + (b + b2)); break; }
+      case 37: { SU_vector r((a + a2) - (b + b2)); break; }
+      case 38: { volatile double r = (a + a2) * (b + b2); (void)r; break; }
+      case 39: { volatile double r = a * (b + b2); (void)r; break; }
+      case 40: { SU_vector r(a + (b + b2)); break; }
+      case 41: { GslMat g(d1, d2); SU_vector r = a.Rotate(g.m); break; }
+      case 42: { GslMat g(d2, d1); SU_vector r = a.Rotate(g.m); break; }
+      case 43: { GslMat g(Mat::identity(d2)); SU_vector r = a.UTransform(g.m); break; }
+      case 44: { GslMat g(Mat::identity(d2)); SU_vector r = a.UDaggerTransform(g.m); break; }
+      case 45: { GslMat g(d1, d2); SU_vector r = a.UTransform(g.m); break; }
+      case 46: { GslMat g(d2, d1); SU_vector r = a.UDaggerTransform(g.m); break; }
+      case 47: { SU_vector r = a.UTransform(b, gsl_complex_rect(0.0, 1.0)); break; }
+      case 48: { GslMat V(Mat::identity(d1)), W(Mat::identity(d1)); a.WeightedRotation(V.m, b, W.m); break; }
+      case 49: { GslMat V(Mat::identity(d2)), W(Mat::identity(d1)); a.WeightedRotation(V.m, a2, W.m); break; }
+      case 50: { GslMat V(Mat::identity(d1)), W(Mat::identity(d2)); a.WeightedRotation(V.m, a2, W.m); break; }
       default: { volatile double r = squids::SUTrace<squids::detail::AlignedStorage>(a, b); (void)r; break; }
     }
   } catch (const std::exception&) { return true; }
@@ -170,7 +201,7 @@ void enumerate(const Emit& emit, const std::string&) {
   }
 }
 
-// fixed findings 47ce1c9 (SUTrace), da55c78 (Evolve), 0e92215 (SU_vector(1,buf)), 090e08a (make_aligned)
+// fixed findings 47ce1c9 (SUTrace), da55c78 (Evolve), 0e92215 (SU_vector(1,buf)), 090e08a (make_aligned), 5e455de (UTransform family)
 void regressions() {
   for (int d1 = 2; d1 <= 6; d1++) for (int d2 = 2; d2 <= 6; d2++) {
     if (d1 == d2) continue;
@@ -180,6 +211,21 @@ void regressions() {
     try { SU_vector r(a.Evolve(b, 0.5)); } catch (const std::exception&) { t2 = true; }
     CHECK(t1, "C14|SUTrace|no-exception", "regression: d1=%d d2=%d", d1, d2);
     CHECK(t2, "C14|a.Evolve(b,t)|no-exception", "regression: d1=%d d2=%d", d1, d2);
+  }
+  // 5e455de: UTransform / UDaggerTransform by a matrix of another size, UTransform by a vector of another dimension
+  for (int d1 = 2; d1 <= 6; d1++) for (int d2 = 2; d2 <= 6; d2++) {
+    if (d1 == d2) continue;
+    SU_vector a(d1), b(d2); a[1] = 0.5; b[1] = 0.25;
+    GslMat g(Mat::identity(d2)), r1(d1, d2), r2(d2, d1);
+    bool t1 = false, t2 = false, t3 = false, t4 = false, t5 = false;
+    try { SU_vector r = a.UTransform(g.m); } catch (const std::exception&) { t1 = true; }
+    try { SU_vector r = a.UDaggerTransform(g.m); } catch (const std::exception&) { t2 = true; }
+    try { SU_vector r = a.UTransform(r1.m); } catch (const std::exception&) { t3 = true; }
+    try { SU_vector r = a.UDaggerTransform(r2.m); } catch (const std::exception&) { t4 = true; }
+    try { SU_vector r = a.UTransform(b, gsl_complex_rect(0.0, 1.0)); } catch (const std::exception&) { t5 = true; }
+    CHECK(t1 && t3, "C14|a.UTransform(matrix_d2)|no-exception", "regression: d1=%d d2=%d", d1, d2);
+    CHECK(t2 && t4, "C14|a.UDaggerTransform(matrix_d2)|no-exception", "regression: d1=%d d2=%d", d1, d2);
+    CHECK(t5, "C14|a.UTransform(b,i)|no-exception", "regression: d1=%d d2=%d", d1, d2);
   }
   double buf[64];
   for (unsigned d : {1u, 7u, 8u}) {
